@@ -229,6 +229,7 @@ GENERIC = {
     "C05": dict(q=dict(soup_n=3000, lf_n=1200, mb_n=300), t=dict(soup_n=40000, lf_n=15000, mb_n=3000), events=False),
     "C06": dict(q=dict(soup_n=5000, trunc_n=400, mb_n=500, case_n=300), t=dict(soup_n=60000, trunc_n=5000, mb_n=5000, case_n=3000), events=False),
     "C07": dict(q=dict(soup_n=3000, trunc_n=300, mb_n=300, extra=dict(string_family=5000)), t=dict(soup_n=30000, trunc_n=3000, mb_n=3000, extra=dict(string_family=80000)), events="all"),
+    "C08": dict(q=dict(soup_n=2000, extra=dict(num_family=6000)), t=dict(soup_n=20000, extra=dict(num_family=150000)), events=False),
     "C09": dict(q=dict(soup_n=5000, trunc_n=600), t=dict(soup_n=60000, trunc_n=6000, corpus_trunc=400), events=False),
     "C10": dict(q=dict(soup_n=5000, trunc_n=800), t=dict(soup_n=60000, trunc_n=8000, corpus_trunc=400), events=False),
 }
